@@ -40,6 +40,41 @@ def runs : List Nat → List Nat → List Nat → Nat → List (Nat × Nat)
     else (List.range e).flatMap (fun i => runs shs ss es (base + (s + i) * prod shs))
   | _, _, _, base => [(base, 1)]
 
+/-- the loop of `NCvcmaxcontig`: the indices `m-1, m-2, …, boundary` are scanned from the last dimension down;
+    an edge that does not fit between the start coordinate and the extent (`*edp > *shp - *orp`) refuses the request (`none` = NULL),
+    the first edge shorter than its extent stops the scan (`break`: the answer is that index), and a scan that passes `boundary`
+    answers `boundary` (`edp++`).  `shape - origin` is the C's unsigned subtraction for `origin ≤ shape` (what `NCcoordck` established). -/
+def maxContigScan (shape origin edges : List Nat) (boundary : Nat) : Nat → Option Nat
+  | 0 => some boundary
+  | j + 1 =>
+    if j < boundary then some boundary
+    else if shape.getD j 0 - origin.getD j 0 < edges.getD j 0 then none
+    else if edges.getD j 0 < shape.getD j 0 then some j
+    else maxContigScan shape origin edges boundary j
+
+/-- `NCvcmaxcontig`: the index (into `edges`) from which on the request is transferred as ONE contiguous run, `none` when an edge
+    is refused.  A record variable (`IS_RECVAR`: `shape[0] = 0`) never scans dimension 0 (`boundary = shape + 1`), and the
+    one-dimensional only record variable (`recsize ≤ len`) answers `edges` at once. -/
+def maxContig (recsize len : Nat) (shape origin edges : List Nat) : Option Nat :=
+  if shape.getD 0 1 = 0 then
+    if shape.length = 1 ∧ recsize ≤ len then some 0
+    else maxContigScan shape origin edges 1 shape.length
+  else maxContigScan shape origin edges 0 shape.length
+
+/-- the index at which `runs` stops enumerating and issues one contiguous request: the first dimension all of whose successors are
+    taken whole (same recursion as `runs`) -/
+def cut : List Nat → List Nat → List Nat → Nat
+  | _ :: shs, _ :: ss, _ :: es => if full shs ss es then 0 else cut shs ss es + 1
+  | _, _, _ => 0
+
+/-- what `NCvario` does with the pointer `edp0 = edges + k` that `NCvcmaxcontig` returned: the dimensions before `k` are enumerated by the
+    ripple counter, and at every such coordinate ONE request is issued at `NC_varoffset(coords)` (the remaining coordinates are the
+    start coordinates) for `iocount = edges[k] * edges[k+1] * …` elements. -/
+def runsAt : Nat → List Nat → List Nat → List Nat → Nat → List (Nat × Nat)
+  | 0, sh :: shs, s :: ss, e :: es, base => [(base + offset (sh :: shs) (s :: ss), e * prod es)]
+  | k + 1, _ :: shs, s :: ss, e :: es, base => (List.range e).flatMap (fun i => runsAt k shs ss es (base + (s + i) * prod shs))
+  | _, _, _, _, base => [(base, 1)]
+
 def expandRuns (rs : List (Nat × Nat)) : List Nat := rs.flatMap (fun r => List.range' r.1 r.2)
 
 /-- `NCcoordck` + the edge test of `NCvcmaxcontig` for a fixed-size variable: the slab lies inside the shape -/
